@@ -23,6 +23,7 @@ mod scen_c17;
 mod scen_dmg;
 mod scen_meta;
 mod scen_rd;
+mod scen_synth;
 mod scen_wr;
 mod scen_rt;
 mod world;
@@ -51,6 +52,7 @@ pub fn lookup(scen: &str) -> Option<Scenario> {
         "rawrt" => scen_c16::run_raw,
         "c09big" => scen_rt::run_c09_big,
         "rtsweep" => scen_rt::run_short_sweep,
+        "synth" => scen_synth::run,
         "c16sweep" => scen_c16::run_sweeps,
         "c08" => scen_wr::run_c08,
         "c15" => scen_wr::run_c15,
